@@ -9,7 +9,7 @@ ENTRY = {
     "streams": [
         {"name": "sigagg", "drive": "drive-sigagg", "model": "drv-sigagg",
          "reset_ops": ["cfg"],
-         "n_quick": 2200, "seeds_quick": 1, "n_thorough": 25000, "seeds_thorough": 6,
+         "n_quick": 2500, "seeds_quick": 1, "n_thorough": 25000, "seeds_thorough": 6,
          "search_seeds": 2},
     ],
     "level_text": "Kernel-checked Lean theorems over a line-by-line model of (*Aggregator).Aggregate / aggregate / NewVerifier (length check, share-index map with collapsing duplicates, second length check, combination, choice of the carrier object, SetSignature, verification of the aggregate under the group key, all-or-nothing fan-out), for any threshold, arbitrary symbolic verify and combine functions, any group-key assignment, every input set, any number of subscribers, every Go map iteration order and every subscriber failure position: every published signature is non-zero and verifies under the validator's group key for the published object's own domain, epoch and signing root (publish_valid); the published object is one of that validator's supplied objects with only the signature replaced by the combination of the supplied share-index map, and under the C08 negative results (CombineSound), signature uniqueness and the C10 guarantee that each partial is valid for its own object, every contributing partial has the carrier's domain, epoch and root (publish_content); one failing validator means no subscriber call for any iteration order (all_or_nothing); too few partials, a repeated share, a failing combination and an aggregate that does not verify each make aggregate fail (failure_causes); when something is published everything is (publish_complete). The two cryptographic hypotheses are instantiated in the threshold-BLS algebra of C08 (honest_partials_aggregate_verifies, single_corruption_detected). Translator T-eth2sd (go/types, regenerated every run): every implementation of core.Eth2SignedData has the model's domain and epoch source and VerifyEth2SignedData passes the object's own fields (domain_table_complete). The model is tied to the code by differential correspondence on the real Aggregator wired as in app.go (sigagg.New + sigagg.NewVerifier) over a beacon mock with seven fork versions and real t-of-n tbls keys: all duty types x data versions, every threshold subset (n <= 5) in random arrival order, all shares, too few, repeated shares, and per-partial corruptions (wrong share, wrong / out-of-range index, signature over another message, another object, zero / infinity / random / truncated signature, single-field alterations, validator-index carrier variants), wrong map key, in single- and multi-validator calls.",
